@@ -131,7 +131,8 @@ class ART2A(BaseART):
             Cache used for later processing.
 
         """
-        activation = float(np.dot(i, w))
+        # in floating point: boolean / narrow integer rows would AND or wrap around
+        activation = float(np.dot(np.asarray(i, dtype=float), np.asarray(w, dtype=float)))
         cache = {"activation": activation}
         return activation, cache
 
